@@ -8,7 +8,7 @@ shifting the rest of the input by inserted/removed characters changes only token
 spaces/tabs further spaces/tabs emit nothing and only extend the one pending Whitespace token. The end-to-end
 statements (a), (b), (c) are recorded as `def … : Prop` (not proved).
 -/
-import Garnish.Lemmas.LexerC18
+import Garnish.Lemmas.LexerC18Ws
 namespace Garnish.Props.C18Lex
 open Garnish Garnish.Model.Lexer
 
@@ -66,5 +66,104 @@ def C18_lex_insert_annotation_statement : Prop :=
     ∃ t1 t2 tb', lex cc (a ++ ('@' :: word) ++ [' '] ++ b) = .ok (ta ++ [t1, t2] ++ tb') ∧
       t1.tokenType = .annotation ∧ t1.text = '@' :: word ∧ t2.tokenType = .whitespace ∧ t2.text = [' '] ∧
       SameTypesAndTexts tb tb'
+
+/-! ### position-insensitivity of the whole lexer, and the local whitespace edit -/
+
+/-- (i), all states: `process_char` does not depend on the position counters; in the Float state `Inv`
+(`1 ≤ text_column`, an invariant of every reachable state: `processChar_ok`) is used on both sides -/
+theorem C18_lex_positions_irrelevant_all (cc : CharClass) (a b : Lexer) (ch : Char) (h : PosEq a b) (ha : Inv a)
+    (hb : Inv b) : OutResEq (processChar cc a ch) (processChar cc b ch) :=
+  processChar_congr_inv cc ch h ha hb
+
+/-- (i), loop level: two runs of the lexer on the same remaining input, from states that agree up to the position
+counters, both fail or both succeed with token lists `l0 ++ rest`, `l0' ++ rest'` whose new parts agree token by token
+in type and text. Hypotheses: `cc.Sane`, `Inv` on both start states. -/
+theorem C18_lex_positions_irrelevant_loop (cc : CharClass) (hcc : cc.Sane) (l0 l0' : List LexerToken)
+    (input : List Char) (a b : Lexer) (h : PosEq a b) (ha : Inv a) (hb : Inv b) :
+    OutSameExt l0 l0' (lexLoop cc input a l0) (lexLoop cc input b l0') := by
+  have := lexLoop_congr cc hcc l0 l0' input a b [] [] h ha hb (SameTT.refl [])
+  simpa using this
+
+/-- C18, lexer half: inserting or removing spaces/tabs inside an existing Whitespace token (no newline) changes only
+that token's text. `p` is a prefix of the input after which the lexer is inside a Whitespace token with text `cs` so far
+(`InWhitespace`, e.g. `p` ends with a space that follows a complete token); `r`, `r'` are runs of spaces/tabs (either may
+be empty); `b` is the rest of the input. Then `lex (p ++ r ++ b)` and `lex (p ++ r' ++ b)` both fail, or they succeed with
+`toks ++ t :: rest` and `toks ++ t' :: rest'`: the same tokens `toks` before, ONE whitespace token each (`t`, `t'`, same
+type, texts `cs ++ r ++ z'` and `cs ++ r' ++ z'` for the same continuation `z'`), and `rest`, `rest'` of equal length
+with pairwise equal types and texts — only rows/columns differ, and those are determined by `C13_positions`. -/
+theorem C18_lex_whitespace_local (cc : CharClass) (hcc : cc.Sane) (p r r' b cs : List Char) (σ : Lexer)
+    (toks : List LexerToken) (hrun : runChars cc p (Lexer.init theTree) [] = .ok (σ, toks)) (h : InWhitespace σ cs)
+    (hr : ∀ c ∈ r, c = ' ' ∨ c = '\t') (hr' : ∀ c ∈ r', c = ' ' ∨ c = '\t') :
+    WsOut toks (cs ++ r) (cs ++ r') (lexFull cc (p ++ (r ++ b))) (lexFull cc (p ++ (r' ++ b))) :=
+  lexFull_whitespace_local cc hcc p r r' b cs σ toks hrun h hr hr'
+
+/-- non-vacuity: after `a ` the lexer (Rust tables) is inside a Whitespace token with text `" "` … -/
+example : (match runChars rustTables ['a', ' '] (Lexer.init theTree) [] with
+    | .ok (σ, _) => inWhitespaceB σ [' ']
+    | _ => false) = true := by decide +kernel
+
+/-- … and `a b+1` / `a \t  b+1` lex to the same tokens up to the whitespace token's text and the columns after it -/
+example :
+    (match lex rustTables ['a', ' ', 'b', '+', '1'], lex rustTables ['a', ' ', '\t', ' ', ' ', 'b', '+', '1'] with
+     | .ok l, .ok l' => (l.map fun t => (t.tokenType, t.text, t.column), l'.map fun t => (t.tokenType, t.text, t.column))
+     | _, _ => ([], [])) =
+    ([(.identifier, ['a'], 0), (.whitespace, [' '], 1), (.identifier, ['b'], 2), (.plusSign, ['+'], 3), (.number, ['1'], 4)],
+     [(.identifier, ['a'], 0), (.whitespace, [' ', '\t', ' ', ' '], 1), (.identifier, ['b'], 5), (.plusSign, ['+'], 6),
+      (.number, ['1'], 7)]) := by decide +kernel
+
+/-! ### inserting whitespace where there was none is NOT neutral for the lexer (finding) -/
+
+/-- "none → some" form of (a): if `a ++ b` lexes to `ta ++ tb` with `ta` spelling `a` (the lexer already separates the two
+parts), then `a ++ " " ++ b` lexes to `ta ++ [ws] ++ tb'` with `tb'` of the same types and texts as `tb` -/
+def C18_lex_insert_space_statement : Prop :=
+  ∀ (a b : List Char) (ta tb : List LexerToken), lex rustTables (a ++ b) = .ok (ta ++ tb) →
+    (ta.map (·.text)).flatten = a →
+    ∃ ws tb', lex rustTables (a ++ [' '] ++ b) = .ok (ta ++ [ws] ++ tb') ∧ ws.tokenType = .whitespace ∧
+      SameTypesAndTexts tb tb'
+
+/-- token types and texts of a successful lex (`[]` on failure) -/
+def typesTexts (r : Outcome (List LexerToken)) : List (Gen.TokenType × List Char) :=
+  match r with
+  | .ok l => l.map fun t => (t.tokenType, t.text)
+  | _ => []
+
+/-- the counterexample: `a.5` lexes to Identifier `a`, Period `.`, Number `5` (after an identifier a period is an
+access, `can_float = false`), but `a .5` lexes to Identifier `a`, Whitespace, Number `.5` — the Whitespace token resets
+`can_float`, so the same characters `.5` after the inserted space form ONE float token. The lexer separates `a` from
+`.5` in both inputs, yet the tokens after the boundary differ. -/
+theorem C18_lex_insert_space_counterexample :
+    typesTexts (lex rustTables ['a', '.', '5']) = [(.identifier, ['a']), (.period, ['.']), (.number, ['5'])] ∧
+    typesTexts (lex rustTables ['a', ' ', '.', '5']) = [(.identifier, ['a']), (.whitespace, [' ']), (.number, ['.', '5'])] := by
+  decide +kernel
+
+/-- hence the "none → some" statement is false for the lexer as it is (model = patched lexer, 0 disagreements on the
+LEX suite): whitespace is not neutral before a `.digit` that follows an identifier, a value, a literal, a period or a
+number. A lexer-level fix would be to let Whitespace keep `can_float` unchanged (`blocksFloat`/`can_float` computed from
+the last non-trivia token). -/
+theorem C18_lex_insert_space_false : ¬C18_lex_insert_space_statement := by
+  intro h
+  obtain ⟨c1, c2⟩ := C18_lex_insert_space_counterexample
+  generalize hr : lex rustTables ['a', '.', '5'] = r at c1
+  generalize hr' : lex rustTables ['a', ' ', '.', '5'] = r' at c2
+  cases r with
+  | ok l =>
+    simp only [typesTexts] at c1
+    cases l with
+    | nil => simp at c1
+    | cons t1 rest =>
+      simp only [List.map_cons, List.cons.injEq, Prod.mk.injEq] at c1
+      obtain ⟨⟨_, hx1⟩, hrest⟩ := c1
+      obtain ⟨ws, tb', h2, _, hsame⟩ := h ['a'] ['.', '5'] [t1] rest (by simpa using hr) (by simp [hx1])
+      have h2' : lex rustTables ['a', ' ', '.', '5'] = .ok ([t1] ++ [ws] ++ tb') := by simpa using h2
+      rw [h2'] at hr'
+      subst hr'
+      have hlen := congrArg List.length c2
+      have hs := congrArg List.length hsame
+      have hr3 := congrArg List.length hrest
+      simp [typesTexts, SameTypesAndTexts] at hlen hs hr3
+      omega
+  | err e => simp [typesTexts] at c1
+  | panic m => simp [typesTexts] at c1
+  | fuelOut => simp [typesTexts] at c1
 
 end Garnish.Props.C18Lex
